@@ -81,10 +81,22 @@ func TestExhaustive(t *testing.T) {
 		patLen, subLen = 6, 5
 		subAlpha = "ab-]^"
 	}
+	failures := exhaustive(t, patAlpha, patLen, subAlpha, subLen)
+	// second space: bytes >= 0x80, alone and as well-formed multi-byte UTF-8 sequences ("?" and a set item
+	// are one byte, not one character), and ranges written high-low over three ordered bytes
+	failures += exhaustive(t, "a?*[^]\xc3\xa9", 4, "a\xc3\xa9\xe2\x82", 4)
+	failures += exhaustive(t, "[]^-acz", 6, "abcz", 2)
+	kit.C.SetExtra("exhaustive_done", failures == 0)
+	if failures > 3 {
+		t.Errorf("%d failing pairs in total (first 3 of each space saved)", failures)
+	}
+}
+
+func exhaustive(t *testing.T, patAlpha string, patLen int, subAlpha string, subLen int) int {
 	var subjects []string
 	enumerate(subAlpha, subLen, func(s string) { subjects = append(subjects, s) })
 	idx := 0
-	var evals, nt, unspec, broken int64
+	var evals, nt, unspec, broken, reversed int64
 	failures := 0
 	shard, shards := kit.Shard(), kit.Shards()
 	enumerate(patAlpha, patLen, func(p string) {
@@ -97,20 +109,22 @@ func TestExhaustive(t *testing.T) {
 		for _, s := range subjects {
 			evals++
 			got, pan := safeMatch(p, s)
-			var want bool
+			defined, want := globref.Decide(toks, cls, s)
 			switch cls {
-			case globref.Unspecified:
+			case globref.Broken:
+				broken++
+			case globref.Reversed:
+				if defined {
+					reversed++
+				}
+			}
+			if !defined {
 				unspec++
 				if pan == "" {
 					continue
 				}
-			case globref.Broken:
-				broken++
-				want = false
-			default:
-				want = globref.Match(toks, s)
 			}
-			if meta && cls != globref.Unspecified {
+			if meta && defined {
 				nt++
 			}
 			if pan != "" || got != want {
@@ -128,12 +142,10 @@ func TestExhaustive(t *testing.T) {
 	kit.C.Bulk(evals, nt, "exhaustive-pairs")
 	kit.C.Label("unspecified-pairs", unspec)
 	kit.C.Label("broken-pattern-pairs", broken)
-	kit.C.SetExtra("exhaustive_done", failures == 0)
+	kit.C.Label("reversed-range-pairs-decided", reversed)
 	kit.C.AddSample(map[string]any{"engine": "exhaustive", "pattern_alphabet": patAlpha, "max_pattern_len": patLen,
 		"subject_alphabet": subAlpha, "max_subject_len": subLen, "example": pair{"a*[^b]?", "ab-]"}})
-	if failures > 3 {
-		t.Errorf("%d failing pairs in total (first 3 saved)", failures)
-	}
+	return failures
 }
 
 func mustJSON(v any) []byte {
@@ -163,7 +175,7 @@ func genPattern(t *rapid.T) string {
 		case 3:
 			sb.WriteByte('?')
 		case 4:
-			sb.WriteString(rapid.SampledFrom([]string{"[ab]", "[^a]", "[a-c]", "[^a-b]", "[\\]]", "[a\\-]", "[*?]", "[abc-e]"}).Draw(t, "cls"))
+			sb.WriteString(rapid.SampledFrom([]string{"[ab]", "[^a]", "[a-c]", "[^a-b]", "[\\]]", "[a\\-]", "[*?]", "[abc-e]", "[c-a]", "[^c-b]", "[\xc3\xa9]", "[\x80-\xff]"}).Draw(t, "cls"))
 		case 5:
 			sb.WriteString(rapid.SampledFrom([]string{"\\*", "\\?", "\\[", "\\\\", "\\a"}).Draw(t, "esc"))
 		case 6:
@@ -177,11 +189,16 @@ func genPattern(t *rapid.T) string {
 
 func genSubject(t *rapid.T) string {
 	n := rapid.SampledFrom([]int{0, 1, 2, 5, 12, 24}).Draw(t, "slen")
-	b := make([]byte, n)
-	for i := range b {
-		b[i] = rapid.SampledFrom([]byte("aaabbc*?[]\\-^\x00\xff")).Draw(t, "sb")
+	var sb strings.Builder
+	for i := 0; i < n; i++ {
+		if rapid.IntRange(0, 7).Draw(t, "mb") == 0 {
+			// well-formed multi-byte sequences: the grammar counts bytes, not characters
+			sb.WriteString(rapid.SampledFrom([]string{"\xc3\xa9", "\xe2\x82\xac", "\xf0\x9f\x98\x80"}).Draw(t, "seq"))
+			continue
+		}
+		sb.WriteByte(rapid.SampledFrom([]byte("aaabbc*?[]\\-^\x00\xff")).Draw(t, "sb"))
 	}
-	return string(b)
+	return sb.String()
 }
 
 // execLong runs the reference first (plain backtracking, the slowest sensible algorithm); if it
@@ -237,19 +254,28 @@ func execKeys(c keysCase) kit.Outcome {
 		return kit.Outcome{Fail: fmt.Sprintf("KEYS %q: reply is not an array: %q", p, r.Raw)}
 	}
 	var got, want []string
-	for _, e := range r.Val.Arr {
-		got = append(got, string(e.Str))
-	}
+	undefined := map[string]bool{} // keys for which the grammar leaves the answer open (reversed ranges)
 	for k := range live {
-		if d, w := globref.Expect(p, k); d && w {
+		d, w := globref.Expect(p, k)
+		if !d {
+			undefined[k] = true
+		} else if w {
 			want = append(want, k)
+		}
+	}
+	for _, e := range r.Val.Arr {
+		if !undefined[string(e.Str)] {
+			got = append(got, string(e.Str))
 		}
 	}
 	sort.Strings(got)
 	sort.Strings(want)
 	o := kit.Outcome{NonTrivial: len(want) > 0 && len(want) < len(live) && strings.ContainsAny(p, "*?[\\")}
+	if len(undefined) > 0 {
+		o.Labels = append(o.Labels, "keys-with-undefined-answer")
+	}
 	if fmt.Sprintf("%q", got) != fmt.Sprintf("%q", want) {
-		o.Fail = fmt.Sprintf("KEYS %q over %q returned %q, grammar says %q", p, c.Keys, got, want)
+		o.Fail = fmt.Sprintf("KEYS %q over %q returned %q, grammar says %q (keys with an undefined answer left out: %d)", p, c.Keys, got, want, len(undefined))
 	}
 	return o
 }
